@@ -31,6 +31,7 @@ import (
 	"strings"
 	"testing"
 
+	"github.com/tinode/chat/server/auth"
 	"github.com/tinode/chat/server/store"
 	"github.com/tinode/chat/server/store/types"
 	kit "github.com/tinode/chat/server/zzverifkit"
@@ -41,6 +42,7 @@ import (
 const c19wArm = "c19w-arm"       // marker (tick op): from here on the namespace configuration is in force
 const c19wAccTags = "c19w-acc"   // marker (raw op): {acc user=self tags=X}
 const c19wNewGrp = "c19w-newgrp" // marker (raw op): {sub new set.tags=X}
+const c19wCred = "c19w-cred"     // marker (raw op): {set me cred={meth=email resp=...}} confirming the pending e-mail
 const c19wMaxTags = 16           // wBoot: globals.maxTagCount
 
 type c19wNS struct {
@@ -49,6 +51,9 @@ type c19wNS struct {
 	Login  bool     `json:"login,omitempty"`  // basic authenticator add_to_tags
 	Extra  []string `json:"extra,omitempty"`  // further immutable namespaces (as declared by a REST authenticator)
 	Masked []string `json:"masked,omitempty"` // masked_tags
+	// a validated e-mail is required at auth level: every account has a validated credential
+	// u<i>@x.co and a pending one pend<i>@x.co (response 123456) which {set cred} may confirm
+	Cred bool `json:"cred,omitempty"`
 }
 
 type c19wProg struct {
@@ -202,6 +207,7 @@ func c19wGen(rt *rapid.T) c19wProg {
 	if gPct(rt, 50) {
 		p.NS.Extra = []string{"org"}
 	}
+	p.NS.Cred = p.NS.Email > 0 && gPct(rt, 50)
 	for _, n := range []string{"email", "tel", "org", "geo"} {
 		if gPct(rt, 45) {
 			p.NS.Masked = append(p.NS.Masked, n)
@@ -393,6 +399,16 @@ func c19wGen(rt *rapid.T) c19wProg {
 			raw := wJSON(map[string]any{"sub": map[string]any{"id": "$id", "topic": "new", "set": map[string]any{"tags": tags}}})
 			p.Ops = append(p.Ops, wOp{K: "raw", S: s, A: raw, B: c19wNewGrp, X: tags})
 		case x < 78:
+			if p.NS.Cred && gPct(rt, 60) {
+				// the pending e-mail is confirmed (sometimes with a wrong response), then the account's tags are updated
+				resp := gPick(rt, []string{"123456", "123456", "123456", "000000"}, "resp")
+				raw := wJSON(map[string]any{"set": map[string]any{"id": "$id", "topic": "me", "cred": map[string]any{"meth": "email", "resp": resp}}})
+				p.Ops = append(p.Ops, wOp{K: "raw", S: s, A: raw, B: c19wCred})
+				if gPct(rt, 70) {
+					p.Ops = append(p.Ops, wOp{K: "set", S: s, T: "me", A: "tags", X: c19wGenTags(rt, resUser(u), foreign)})
+				}
+				break
+			}
 			p.Ops = append(p.Ops, wOp{K: "get", S: s, T: gPick(rt, []string{"me", "me", "g0", "g1"}, "tagsof"), A: "tags"})
 		case x < 88: // suspension / reinstatement, mostly by user 0 (root in most cases)
 			tgt := gInt(rt, 1, 3, "tgt")
@@ -586,6 +602,7 @@ func c19wBasic(on bool) {
 func c19wDisarm() {
 	c19wBasic(false)
 	globals.validators = nil
+	globals.authValidators = nil
 	globals.immutableTagNS = map[string]bool{}
 	globals.maskedTagNS = map[string]bool{}
 }
@@ -601,6 +618,17 @@ func (o *c19wObs) doSetup(w *wWorld) {
 			panic("c19w: seeding tags: " + err.Error())
 		}
 		o.users = append(o.users, &c19wObj{tags: c19wSet(tags), state: c19wOK})
+		if o.p.NS.Cred && o.p.NS.Email > 0 {
+			for _, c := range []types.Credential{
+				{User: w.users[i].uid.String(), Method: "email", Value: fmt.Sprintf("u%d@x.co", i), Done: true},
+				{User: w.users[i].uid.String(), Method: "email", Value: fmt.Sprintf("pend%d@x.co", i), Resp: "123456"}} {
+				c := c
+				c.CreatedAt, c.UpdatedAt = types.TimeNow(), types.TimeNow()
+				if _, err := store.Users.UpsertCred(&c); err != nil {
+					panic("c19w: seeding credentials: " + err.Error())
+				}
+			}
+		}
 	}
 	for len(o.users) < len(w.users) {
 		o.users = append(o.users, &c19wObj{tags: map[string]bool{}, state: c19wOK})
@@ -617,6 +645,9 @@ func (o *c19wObs) arm() {
 	}
 	if ns.Tel > 0 {
 		globals.validators["tel"] = credValidator{addToTags: ns.Tel == 2}
+	}
+	if ns.Cred && ns.Email > 0 {
+		globals.authValidators = map[auth.Level][]string{auth.LevelAuth: {"email"}}
 	}
 	c19wBasic(ns.Login)
 	globals.immutableTagNS = ns.immutable()
@@ -891,6 +922,24 @@ func (o *c19wObs) after(w *wWorld, st *wStep) *kit.Viol {
 					u.tags = stored
 				}
 				o.class("acc-with-tags")
+			}
+		}
+	case st.Op.K == "raw" && st.Op.B == c19wCred:
+		// a confirmed credential is a change made by the validator: the account gains the tag of
+		// the confirmed e-mail when the validator is configured to index it, nothing else changes
+		if st.Login >= 0 {
+			u := o.users[st.Login]
+			if tags, _, _, ok := c19wUserRow(snap, w.users[st.Login].uid); ok {
+				stored := c19wSet(tags)
+				if !c19wSameSet(stored, u.tags) {
+					want := c19wSet(c19wList(u.tags))
+					want[fmt.Sprintf("email:pend%d@x.co", st.Login)] = true
+					if !acked || !o.armed || o.p.NS.Email != 2 || !c19wSameSet(stored, want) {
+						return o.rep(kit.V("tags-changed-by-credential-request", "%s answered %d changed the tags of user %d from %q to %q (validator indexes e-mail: %v)", st.Req, code, st.Login, c19wList(u.tags), c19wList(stored), o.p.NS.Email == 2))
+					}
+					u.tags = stored
+					o.class("credential-confirmed-tag-added")
+				}
 			}
 		}
 	case st.Op.K == "raw" && st.Op.B == c19wNewGrp:
